@@ -5,7 +5,8 @@ Families (complete enumerations):
   sigma   every string over the hazard alphabet SIGMA up to length 3 (quick) / 4 (thorough) in the
           contexts: plain constant, f-string literal part, constant in a replacement field, constant
           in a nested field of a format spec, literal format spec, dict key inside a replacement
-          field, bytes
+          field, bytes; plus length 4 (quick) / 5 (thorough) over the quote/backslash/brace/line-break
+          core of the alphabet, and every bytes value up to length 4 (quick) / 5 (thorough) over 9 byte symbols
   cp      every single code point 0..0x2FF plus the plane/surrogate boundary points, in each context,
           alone and between two ordinary characters; every byte value 0..255
   num     numeric/singleton constants in the contexts bare / attribute base / power operand /
@@ -217,6 +218,14 @@ def run_shard(shard):
             r = judge(res, "c04:sigma:%s:%s" % (ctx, ascii(s)), t, byc or (ctx == "specliteral" and spec_literal_denotable(s, t)))
             if r == "ok" and len(s) == maxlen and res.c["literals"] % 1500 == 1:
                 res.sample({"key": "c04:sigma:%s:%s" % (ctx, ascii(s)), "text": c03.unparser()(build(s))})
+    elif kind == "qsigma":
+        # quote/backslash/brace/line-break core of SIGMA one symbol longer than the full-alphabet bound
+        _, ctx, n, first = shard
+        build, byc = STR_CONTEXTS[ctx]
+        for t in itertools.product(QSIG, repeat=n - 1):
+            s = first + "".join(t)
+            e = build(s)
+            judge(res, "c04:sigma:%s:%s" % (ctx, ascii(s)), e, byc or (ctx == "specliteral" and spec_literal_denotable(s, e)))
     elif kind == "sigma0":
         for ctx, (build, byc) in STR_CONTEXTS.items():
             judge(res, "c04:sigma:%s:''" % ctx, build(""), byc and ctx == "plain")
@@ -233,10 +242,18 @@ def run_shard(shard):
             for v in range(256):
                 for form, b in (("1", bytes([v])), ("mid", b"a" + bytes([v]) + b"b")):
                     judge(res, "c04:bytes:%s:%s:%02x" % (ctx, form, v), build(b), byc)
-            bsig = [b"'", b'"', b"\\", b"\n", b"\r", b"\0", b"a", b"\xff", b"{"]
-            for n in range(0, 4):
-                for t in itertools.product(bsig, repeat=n):
+            for n in range(0, 3):
+                for t in itertools.product(BSIG, repeat=n):
                     b = b"".join(t)
+                    judge(res, "c04:bytes:%s:sigma:%r" % (ctx, b), build(b), byc)
+    elif kind == "bsigma":
+        # every bytes value of length 3..maxlen over BSIG starting with `first` (length 4 is the shortest value that
+        # rules out every quote mark: both triple quotes inside or a quote of each kind at the end)
+        _, first, maxlen = shard
+        for ctx, (build, byc) in BYTES_CONTEXTS.items():
+            for n in range(2, maxlen):
+                for t in itertools.product(BSIG, repeat=n):
+                    b = first + b"".join(t)
                     judge(res, "c04:bytes:%s:sigma:%r" % (ctx, b), build(b), byc)
     elif kind == "num":
         for key, e in numerics():
@@ -260,9 +277,18 @@ def run_shard(shard):
     return res
 
 
+QSIG = ["'", '"', "\\", "{", "}", "\n", "a"]
+BSIG = [b"'", b'"', b"\\", b"\n", b"\r", b"\0", b"a", b"\xff", b"{"]
+
+
 def shards(tier):
     maxlen = 3 if tier == "quick" else 4
     out = [("sigma0",), ("bytes",), ("num",)]
+    for first in BSIG:
+        out.append(("bsigma", first, 4 if tier == "quick" else 5))
+    for ctx in STR_CONTEXTS:
+        for first in QSIG:
+            out.append(("qsigma", ctx, maxlen + 1, first))
     for ctx in STR_CONTEXTS:
         for first in SIGMA:
             out.append(("sigma", ctx, maxlen, first))
